@@ -146,7 +146,8 @@ ADDENDA = {
     "C08": "The catalogue has 24 operations incl. delete-by-filter / ids_for_metadata_filter through the index path and through the reference-matcher scan fallback, and delete by closure.",
     "C09": "Tombstone-compaction family: a capacity-3 index that is full with a tombstone in slot 0, insert of a new id (runs compact_tombstones) racing delete / metadata update / overwrite / batch delete / snapshot in both thread orders with <= 2 preemptions; the live collection must equal the outcome of some serial order of the acknowledged writes, and strict recovery must reproduce it.",
     "C13": "Server level: the REAL server binary (srvmc re-executed as kyrodb_server's main()) produces the directory over gRPC + SIGTERM, then is started on every single-fault copy (file x deletion / truncation to 0 and half / bit flip first, middle, last byte): it must exit before its port opens or serve exactly the pre-damage collection.",
-    "C14": "Request-shape section: every id list of length <= 3 over {1,2,3,absent} (all adjacent / non-adjacent repeat patterns) as BatchDelete(ids), BulkInsert and BulkLoadHnsw from every population of <= 3 documents with max_vectors = 3, followed by a refill that probes the limit.",
+    "C14": "Request-shape section: every id list of length <= 3 over {1,2,3,absent} (all adjacent / non-adjacent repeat patterns) as BatchDelete(ids), BulkInsert and BulkLoadHnsw from every population of <= 3 documents with max_vectors = 3, followed by a refill that probes the limit. Server level: through the REAL binary a tenant at max_vectors is refused, may overwrite, is admitted after one delete and refused again, on first boot and after each of two restarts (main()'s start-up recount).",
+    "C10": "Server level: the REAL binary with authentication on — {no key, unknown, disabled, empty, Bearer unknown} x 9 RPCs must be UNAUTHENTICATED and change nothing; two tenants (one with two keys) using identical local ids and vectors see only their own documents through Query / BulkQuery / Search on first boot and after two restarts, with a tenant added to the key file in between (interceptor, persistent tenant map).",
     "C15": "14 structurally malformed filters are sent bare as BatchDelete{filter}: answered; refused => unchanged; accepted => only documents the engine's reference matcher selects are removed; census after restart equals the live one.",
     "C16": "Data, deleted fillers and queries come from one pool (same distribution). The heavy-delete route is also measured BEFORE compaction with 30 / 45 / 60 % of the slots tombstoned (held to the 0.80 floor only).",
     "C18": "On the one-step frontier (rows that are safe or violate exactly one condition) every single deviation of a remaining setting (65 deviations covering all other configuration fields, incl. http_host loopback / non-loopback) x three routes; every row additionally as environment overrides on top of the four configuration templates shipped in the repository. Server level: the REAL binary launched per (environment, violated condition) x route must exit non-zero before its port opens; safe baselines must start.",
